@@ -429,14 +429,18 @@ class BitArray(Bits):
         """
         if pos is None:
             # Set all bits to either 1 or 0
-            self._setint(-1 if value else 0)
+            if len(self) != 0:
+                self._setint(-1 if value else 0)
             return
         if not isinstance(pos, abc.Iterable):
             pos = (pos,)
         v = 1 if value else 0
-        if isinstance(pos, range):
-            self._bitstore.__setitem__(slice(pos.start, pos.stop, pos.step), v)
-            return
+        if isinstance(pos, range) and len(pos) != 0:
+            lo, hi = min(pos[0], pos[-1]), max(pos[0], pos[-1])
+            if lo >= 0 and hi < len(self):
+                # Every position is valid and non-negative, so the range is equivalent to a slice.
+                self._bitstore.__setitem__(slice(lo, hi + 1, abs(pos.step)), v)
+                return
         for p in pos:
             self._bitstore[p] = v
 
